@@ -1209,3 +1209,13 @@ package server
 //@ assigns @flushFrame
 //@ may_emit Flush
 //@ ensures[C02,C03] flushing_is_not_an_upgrade: r.inflightRequest.hijacked == old(r.inflightRequest.hijacked)
+
+//@ func (*server.Router).ListActiveServices$1$1
+//@ results cont
+//@ requires arg1 != nil && result != nil && (arg1.active != nil ==> arg1.pauseController != nil && forall i int :: 0 <= i && i < len(arg1.active.all) ==> arg1.active.all[i] != nil && arg1.active.all[i].targetURL != nil)
+//@ assigns mapof(result)
+//@ may_emit Lock, Unlock
+//@ ensures[C20,C06] every_deployed_service_is_listed_whatever_its_state: arg1.active != nil ==> haskey(result, arg0) && result[arg0].TLS == arg1.options.TLSEnabled && result[arg0].Path == joined(arg1.options.PathPrefixes, ",") && result[arg0].Host == ite(joined(arg1.options.Hosts, ",") == "", "*", joined(arg1.options.Hosts, ","))
+//@ ensures[C20] a_service_without_targets_is_not_listed: arg1.active == nil ==> haskey(result, arg0) == old(haskey(result, arg0))
+//@ ensures[C20] other_rows_untouched: forall n string :: n != arg0 ==> haskey(result, n) == old(haskey(result, n))
+//@ ensures[C20] keeps_iterating: cont
